@@ -51,6 +51,7 @@ StepOK ==
   /\ MonExecOutcome(st, last', ok', st')
   /\ MonExecOnce(st, last', ok')
   /\ MonTerminalKept(st, st')
+  /\ MonTerminalClosable(st, last', ok')
   /\ MonHardFail(ok', st, st', ~ok' => st' = st)
 StepProps == [][StepOK]_vars
 
